@@ -531,8 +531,15 @@ class ConditionEvaluator(ast.NodeVisitor):
                 if is_and:
                     if result.left_varmap is None:
                         # Condition returns False
+                        right_varmap = result.right_varmap
+                        if remaining_varmaps and right_varmap is not None:
+                            # earlier operands already set aside part of the
+                            # values: they do not match either
+                            right_varmap = unite_varmaps(
+                                [*remaining_varmaps, right_varmap]
+                            )
                         return ConditionReturn(
-                            right_varmap=result.right_varmap,
+                            right_varmap=right_varmap,
                             condition=ConditionList(active),
                         )
                     elif result.right_varmap is None:
@@ -557,8 +564,14 @@ class ConditionEvaluator(ast.NodeVisitor):
                         )
                     elif result.right_varmap is None:
                         # Condition returns True
+                        left_varmap = result.left_varmap
+                        if remaining_varmaps:
+                            # earlier operands already matched part of the values
+                            left_varmap = unite_varmaps(
+                                [*remaining_varmaps, left_varmap]
+                            )
                         return ConditionReturn(
-                            left_varmap=result.left_varmap,
+                            left_varmap=left_varmap,
                             condition=ConditionList(active),
                         )
                     else:
